@@ -362,8 +362,8 @@ def validate_events(ctx, traces, parallel=12):
     def run_chunk(idx, cfg, tag):
         f = ctx.scratch / f"tr-{tag}-{idx[0]}.json"
         f.write_text(json.dumps([_strip(traces[i]) for i in idx]))
-        r = run_tlc("HtmlSkipTrace", cfg, scratch=ctx.scratch / f"tlc-{tag}-{idx[0]}", workers=1, timeout=1500, heap="6g",
-                    env={"TRACE_FILE": str(f), "MBV_PROGRESS": "0"})
+        r = run_tlc("HtmlSkipTrace", cfg, scratch=ctx.scratch / f"tlc-{tag}-{idx[0]}", workers=1, timeout=1500,
+                    heap="6g" if getattr(ctx, "thorough", False) else "3g", env={"TRACE_FILE": str(f), "MBV_PROGRESS": "0"})
         f.unlink(missing_ok=True)
         return idx, r
 
@@ -444,17 +444,21 @@ def _report(ctx, traces, accepted, bad):
         e = traces[ti]["ev"][ei]
         items.append((len(e["toks"]), e["w"], _compact([(t["k"], t["n"]) for t in e["toks"]]), e, cls))
     items.sort(key=lambda x: (x[0], x[2], x[1], x[3]["html"]))
-    # report the shortest witness per (kind of failure, markup involved, wrapper), at most 40
-    shown, per = 0, set()
+    # report the shortest witnesses per (kind of failure, markup involved), two wrappers each; lost / leaked
+    # alternate so that both kinds appear among the lines Verdicts prints
+    per, chosen = set(), {True: [], False: []}
     for ln, w, comp, e, cls in items:
         sn = set(e["seen"])
-        sig = (any(c == "MUST" and i + 1 not in sn for i, c in enumerate(cls)),
-               tuple(sorted({t["k"] + t["n"] for t in e["toks"] if t["k"] not in "TA"})), w)
-        if sig in per or shown >= 40 or sum(1 for q in per if q[:2] == sig[:2]) >= 2:
+        is_lost = any(c == "MUST" and i + 1 not in sn for i, c in enumerate(cls))
+        sig = (is_lost, tuple(sorted({t["k"] + t["n"] for t in e["toks"] if t["k"] != "T"})), w)
+        if sig in per or len(chosen[is_lost]) >= 20 or sum(1 for q in per if q[:2] == sig[:2]) >= 2:
             continue
         per.add(sig)
-        shown += 1
-        seen = set(e["seen"])
+        chosen[is_lost].append((w, comp, e, cls, sn))
+    order = [x for pair in zip(chosen[True], chosen[False]) for x in pair]
+    k = min(len(chosen[True]), len(chosen[False]))
+    order += chosen[True][k:] + chosen[False][k:]
+    for w, comp, e, cls, seen in order:
         lost = [i + 1 for i, c in enumerate(cls) if c == "MUST" and i + 1 not in seen]
         leaked = [i + 1 for i, c in enumerate(cls) if c == "MUSTNOT" and i + 1 in seen]
         what = []
